@@ -6,7 +6,7 @@
 #include "hcommon.h"
 #include "ref_xz.h"
 
-static unsigned char file[1 << 17], plain[1 << 12], scratch[1 << 16]; static size_t flen, plen;
+static unsigned char file[1 << 17], plain[1 << 15], scratch[1 << 16]; static size_t flen, plen;
 static ref_xz_info info;
 static char layout[200];
 
@@ -109,6 +109,7 @@ static void check_layout(int thorough) {
 	if (f0.r != LZMA_STREAM_END || f0.badseek) { h_fail("fileinfo:whole", "whole-file run r=%d badseek=%d layout=[%s]", f0.r, f0.badseek, layout); lzma_index_end(base, NULL); return; }
 	if (cmp_index(base, why, sizeof why)) { h_fail("fileinfo:index-vs-ref", "%s layout=[%s] read=whole", why, layout); lzma_index_end(base, NULL); return; }
 	if (random_access(base, why, sizeof why)) h_fail("fileinfo:random-access", "%s layout=[%s]", why, layout);
+	if (f0.seeks) h_fail("fileinfo:seek-with-whole-file", "whole file in one buffer but LZMA_SEEK_NEEDED returned %ld times layout=[%s]", f0.seeks, layout);
 	lzma_index_end(base, NULL);
 	size_t maxc = thorough ? 70 : 40;
 	for (size_t c = 1; c <= maxc; c++) {
@@ -185,6 +186,30 @@ int main(int argc, char **argv) {
 			distinct_layouts++;
 			check_layout(thorough);
 			if ((idx % 23) == 1 || (thorough && (idx % 5) == 1)) check_mutations();
+		}
+	}
+	// Streams larger than the decoder's 8 KiB internal buffer (whole-file input and every chunk size), and handle reuse after a failed decode
+	if (!dump && shard == 0) {
+		static unsigned char bigsrc[12000]; { uint32_t x = 12345; for (size_t i = 0; i < sizeof bigsrc; i++) { x = x * 1664525u + 1013904223u; bigsrc[i] = (unsigned char)(x >> 24); } }
+		for (int variant = 0; variant < 3; variant++) { flen = 0; plen = 0;
+			for (int i = 0; i < 3; i++) { size_t want = (variant == i) ? 11000 : 40;
+				size_t n = mk_stream(file + flen, sizeof file - flen, 2, want / 2, i == 1 ? LZMA_CHECK_SHA256 : LZMA_CHECK_CRC32, bigsrc); if (!n) break;
+				flen += n; if (i < 2) { memset(file + flen, 0, 4); flen += 4; } }
+			snprintf(layout, sizeof layout, "3 Streams, Stream %d is 11 KB (larger than the 8 KiB internal buffer)", variant);
+			static unsigned char decbig[1 << 15]; size_t dl = 0; if (ref_xz_decode(file, flen, decbig, sizeof decbig, &dl, &info) != REF_OK) { printf("NOTE big-stream layout rejected by the reference\n"); continue; } plen = dl;
+			files++; distinct_layouts++;
+			static const size_t CH[] = { 0, 1, 7, 100, 4096, 8191, 8192, 8193, 9000, 20000 };
+			for (int c = 0; c < 10; c++) { H_CASE("c13_fileinfo layout=[%s] read=%zu", layout, CH[c]); lzma_index *ix = NULL; char why[200]; fres f = run(CH[c], 1L << 40, 0, &ix); runs++; if (getenv("FI_DEBUG")) printf("DBG variant=%d read=%zu r=%d seeks=%ld calls=%ld flen=%zu nst=%u\n", variant, CH[c], f.r, f.seeks, f.calls, flen, info.nst);
+				if (f.r != LZMA_STREAM_END || f.badseek) h_fail("fileinfo:readsize", "read size %zu: r=%d badseek=%d layout=[%s]", CH[c], f.r, f.badseek, layout); else if (cmp_index(ix, why, sizeof why)) h_fail("fileinfo:index-vs-ref", "%s layout=[%s] read=%zu", why, layout, CH[c]);
+				else if ((CH[c] == 0 || CH[c] >= flen) && f.seeks) h_fail("fileinfo:seek-with-whole-file", "whole file in one buffer but LZMA_SEEK_NEEDED returned %ld times (index.h: no external seeking then) layout=[%s]", f.seeks, layout); lzma_index_end(ix, NULL); }
+			// reuse: the same lzma_stream first gets a damaged copy (first Stream's footer), then the valid file
+			{ static unsigned char dmg[1 << 17]; memcpy(dmg, file, flen); size_t first_end = info.st_off[1] - 4; dmg[first_end - 3] ^= 0x40;
+			  lzma_stream s = LZMA_STREAM_INIT; lzma_index *i1 = NULL, *i2 = NULL; H_CASE("c13_fileinfo reuse after failed decode layout=[%s]", layout);
+			  if (lzma_file_info_decoder(&s, &i1, UINT64_MAX, flen) == LZMA_OK) { size_t pos = 0; s.avail_in = 0; lzma_ret r; for (int g = 0; g < 100000; g++) { if (s.avail_in == 0) { size_t n = flen - pos > 512 ? 512 : flen - pos; s.next_in = dmg + pos; s.avail_in = n; pos += n; } r = lzma_code(&s, LZMA_RUN); if (r == LZMA_SEEK_NEEDED) { pos = s.seek_pos; s.avail_in = 0; continue; } if (r != LZMA_OK) break; }
+				if (r == LZMA_STREAM_END) h_fail("fileinfo:damaged-accepted", "file with a damaged first Stream Footer accepted layout=[%s]", layout);
+				if (lzma_file_info_decoder(&s, &i2, UINT64_MAX, flen) == LZMA_OK) { pos = 0; s.avail_in = 0; for (int g = 0; g < 100000; g++) { if (s.avail_in == 0) { size_t n = flen - pos > 512 ? 512 : flen - pos; s.next_in = file + pos; s.avail_in = n; pos += n; } r = lzma_code(&s, LZMA_RUN); if (r == LZMA_SEEK_NEEDED) { pos = s.seek_pos; s.avail_in = 0; continue; } if (r != LZMA_OK) break; }
+					char why[200]; runs++; if (r != LZMA_STREAM_END) h_fail("fileinfo:reuse", "valid file on a reused handle returns %d layout=[%s]", r, layout); else if (cmp_index(i2, why, sizeof why)) h_fail("fileinfo:reuse", "index from a reused handle: %s layout=[%s]", why, layout); } }
+			  lzma_index_end(i1, NULL); lzma_index_end(i2, NULL); lzma_end(&s); }
 		}
 	}
 out:
